@@ -10,4 +10,7 @@ StreamOrderDef == <<"interruptions", "primary">>
 DevOrderDef == <<"det">>
 SuspPreDef == <<>>
 SuspPostDef == <<>>
+XSus == {"s1"}
+SigOfDef == [x \in XSus |-> "sig1"]
+SusFutsDef == [x \in XSus |-> <<"s1a", "s1b">>]
 =============================================================================
